@@ -91,6 +91,42 @@ CHECKS = {
             "trusted base: kxps/verif_export.go hook (sampling step with injected clock); windows not consulted by the library's cascade are not judged; Average() via a monotonic-clock bracket", "5/C20"),
 }
 
+# what the later strengthening rounds added, appended to the rows above: id -> (technique, text, note)
+ADDENDA = {
+    "C01": ("; handshake and session share one byte stream per direction: TLC enumerates the interleavings of both endpoints' six handshake calls with the first session writes (RTMP 5.2.1 order, partial-order reduced), invariant HsExact (a handshake read consumes exactly its 1/1536 bytes), deviation handshake-overread; the replayer executes that schedule",
+            "; the session bytes of the peer may lie in the transport behind C2/S2 (or S2 behind C1) before the library reads them, in whole / random / 1-byte segmentation, both roles",
+            "; handshake calls in a standard-legal order, one Handshake object per endpoint; transport byte counters are diagnostics, the verdict comes from the messages"),
+    "C03": ("; byte-level codec model RtmpCodec.tla (Marshal / Unmarshal into the constructor's packet and into a blank packet / Remarshal; invariants FieldsSurvive, DecodedSizeIsPayload, RemarshalIsPayload; deviations empty-is-absent, trust-preset, zero-keeps-preset)",
+            "; every packet is decoded through DecodeMessage, ExpectPacket, the constructor's packet and a blank packet and every field compared with the specification's value, over the value classes empty / 1 byte / constructor preset / other for every string, 0 / preset for every number, null / undefined / object / absent for value slots",
+            "; constructor presets are transcribed from the library's constructors (they select value classes and the model's decode target); blank connect packets carry an allocated empty command object"),
+    "C04": ("; a request reaches the transport in 1..k transport writes (RegAfter / Parts), size x chunk-size matrix, deviations register-before-flush and lookup-then-reset; aimed interleaving stress (writer released when the transport hands response i to the reader, feedback-centred delay sweep)",
+            "; every schedule is also replayed with requests of 300 B to 300 KB under output chunk sizes 128 B to 1 MB with the peer answering from inside the completing transport write; 11k (quick) to 140k (thorough) aimed rounds check 'every response matched' between the reader's critical sections (probabilistic: atomicity violations invisible to gates and to the race detector)",
+            "; trusts the harness's own chunk-stream parser to decide when a request is complete; windows inside the library are hit statistically, not enumerated; aim needs >= 2 CPUs"),
+    "C05": ("; live-object histories (heap machine Amf0Live.tla: New / Set / attach existing / assign through the pointer / re-decode, an observation after every call; invariant LiveSize, deviation marshal-cache)",
+            "; the bytes and Size() of ANY node observed at any point of a history of calls (marshal, change below, marshal; decoded trees edited afterwards; shared nodes) are those of its current value - exhaustive for one call between two observations on all 27 three-level start trees, random walks of 14 calls beyond; the ECMA associative count is left to the writer and not compared; bytes the library marshalled must re-marshal to exactly themselves",
+            "; no concurrent calls on one tree"),
+    "C06": ("; live-object histories as in C05 (Amf0Live.tla, invariant LiveDecodes: the independent decoder maps the observed bytes to the current value; deviation marshal-cache)",
+            "; the same for any node at any point of a history of API calls (marshal, change below, marshal); the ECMA associative count, which the AMF0 specification does not tie to the pairs, is not compared",
+            "; a strict-array value in a history is classified as the known finding only if the bytes are exactly the StrictKeyed layout of the CURRENT value"),
+    "C09": ("; dense body-size sweep generated by TLC (every size 0..12352 quick / 0..70000 thorough as 2- and 3-tag files) and two scratch-buffer deviations (mux-scratch-trunc, demux-scratch-short) that are wrong for 4 sizes only",
+            "; every body size of the sweep is written, compared byte for byte and demuxed the same way (implementation boundaries: fast paths, scratch or buffered-io blocks); at model scale TLC checks every size 0..20 in all interleavings",
+            "; an implementation boundary above the sweep's end is seen only at matrix values or random thorough sizes"),
+    "C11": ("", "; every frame the library returned is held and must be unchanged after all later calls (reused output buffers)", ""),
+    "C12": ("", "; every marshalled record / sample / NAL unit is held and must be unchanged after all later calls (pooled or reused buffers)", ""),
+    "C16": ("; JoseHist.tla: 1..3 signers / recipients with their own algorithms and headers, histories of Open (right / wrong / foreign keys in any order) and Reserialize on ONE parsed object (TLC: HistoryFree, HAcceptOnlyIf, HRoundTrip; deviations open-consumes-object, shared-entry-header), behaviours replayed on one parsed object",
+            "; every party's key of a 1..3-party general-JSON object opens it at any point of any sequence of opens with any keys, verdicts do not depend on the history of the parsed object, a re-serialized copy opens as a no-history copy would, per-entry tampering is rejected for the owning party's key",
+            "; several-party algorithm alphabets are tier subsets, several-recipient JWE without zip and aad, history length 2 (3 for one party in thorough); the verdict for another party's tampered entry is free; /repo is compiled under its own go.mod's loop-variable semantics"),
+    "C18": ("; caller-owned operand slices (own reuse and concurrent read-only sharing, capacity / window sweep): state buf, invariant OperandsUntouched, deviation prefix-inserted-in-place",
+            "; every call's line ends in exactly what its operands, as the application filled them, format to, and the call leaves the caller's operand slice up to its capacity untouched - for operands written out in the call, windows of a goroutine's own reused slice and windows of a slice passed read-only by all goroutines at once",
+            "; token-less println calls on shared slices are attributed by multiset matching"),
+    "C19": ("; behaviours of one handler object (Create, then Mutate / Arrive / Respond / ClientRead up to MaxServes times; invariants ResponseOfCurrentValue, AnswerIsCurrent; deviation first-response-cached), exhaustive lives plus seeded simulation",
+            "; every response of a handler object (Data / Error / CplxError and the Write* forms, registered on a ServeMux, served several times while the value behind it moves between value classes and versions) is that of the value AT THAT REQUEST and of that request's callback",
+            "; requests on one object are sequential (no mutation while a request is in flight)"),
+    "C20": ("; lifecycle with Close (states new / running / closed-unstarted / closed-after-start / restarted; invariants ReadsRefusedUnlessStarted, ReadsAnsweredWhileRunning, ClosedIsFinal; deviation closed-counts-as-started); every lifecycle history of length 5 (quick) / 6 (thorough) replayed on the public Kbps and Krps, with the hook and with the real Start()",
+            "; reads are refused in every history in which Start was never called (also after Close) and answered while the meter is running",
+            "; reads after Start-then-Close or Close-then-Start are specified as the library does them and judged only for finite non-negative values; what Close() returns is not judged"),
+}
+
 NOT_YET = "check not built yet in this revision of /verif (work in progress; see DESIGN.md section 5)"
 
 
@@ -108,6 +144,8 @@ def main():
         if pid not in CHECKS:
             continue
         level, tech, text, note, ref = CHECKS[pid]
+        if pid in ADDENDA:
+            tech, text, note = tech + ADDENDA[pid][0], text + ADDENDA[pid][1], note + ADDENDA[pid][2]
         checks.append({
             "property_id": pid,
             "quick_cmd": "./vcheck %s --tier quick" % pid,
